@@ -640,7 +640,7 @@ def run_classification(ctx, second_path=True):
     def one(c):
         rng = c.rng
         entry = rng.choices(["conelp", "lp", "socp", "sdp", "coneqp", "qp", "cpl", "cp", "gp"],
-                            [0.26, 0.12, 0.1, 0.1, 0.16, 0.08, 0.07, 0.07, 0.04])[0]
+                            [0.22, 0.11, 0.09, 0.09, 0.15, 0.08, 0.08, 0.09, 0.09])[0]
         if entry in ("cpl", "cp", "gp"):
             return one_nl(c, rng, entry)
         isqp = entry in ("coneqp", "qp")
